@@ -6,6 +6,7 @@ pending-Interest outcomes, face output) must be equal.  Nack and PIT-token rules
 refcodec on the recorded face output.
 """
 import asyncio
+import logging
 
 from . import gen, pkts, vtime, refcodec as rc
 from .boundary import RecFace
@@ -50,7 +51,8 @@ class Twin:
         await asyncio.sleep(0)
         if self.fe == 'v2':
             def h(n, p, reply, c):
-                self.log.append(('handler', tuple(bytes(x) for x in n), None if p is None else bytes(p), None if c.get('pit_token') is None else bytes(c['pit_token'])))
+                self.log.append(('handler', tuple(bytes(x) for x in n), None if p is None else bytes(p),
+                                 bytes(c['pit_token']) if isinstance(c.get('pit_token'), (bytes, bytearray, memoryview)) else c.get('pit_token')))
                 d = bytes(make_data(n, MetaInfo(), b'reply', DigestSha256Signer()))
                 reply(d)
 
@@ -224,8 +226,16 @@ def check_nack(ctx, rng, fe):
             env = rc.make_lp(fragment=iw, nack_reason=reason, headers=hs, pit_token=rng.choice([None, None, b'', b'\x01\x02\x03\x04', gen.rand_bytes(rng, 8)]))
             snap = T.snapshot()
             expect_keys = [k for k, t in T.pend.items() if not t.done() and knames.get(k) == names[target]]
-            ctx.event('nack-multi-target' if len(expect_keys) > 1 else 'nack-single-target')
             w = {'frontend': fe, 'target': target, 'reason': reason, 'headers': [hex(t) for t, v in hs]}
+            if len(expect_keys) > 1 and rng.random() < 0.3:
+                # the caller gives up one of several Interests of that name in the very loop turn in which the Nack is processed
+                # (no yield in between): the Nack still completes the others, with its reason
+                victim = expect_keys[0] if rng.random() < 0.7 else rng.choice(expect_keys)
+                T.pend[victim].cancel()
+                expect_keys = [k for k in expect_keys if k != victim]
+                w['cancelled_in_same_turn'] = victim
+                ctx.event('nack-with-cancel-in-same-turn')
+            ctx.event('nack-multi-target' if len(expect_keys) > 1 else 'nack-single-target')
             try:
                 await T.face.deliver(env)
             except Exception as e:   # noqa
@@ -233,7 +243,8 @@ def check_nack(ctx, rng, fe):
             for _ in range(4):
                 await asyncio.sleep(0)
             log, sent = T.since(snap)
-            got = sorted((e[1], e[2], e[3] if len(e) > 3 else None) for e in log if e[0] == 'completed')
+            got = sorted((e[1], e[2], e[3] if len(e) > 3 else None) for e in log if e[0] == 'completed'
+                         and not (e[1] == w.get('cancelled_in_same_turn') and e[2] in ('InterestCanceled', 'CancelledError')))   # the given-up one ends cancelled
             exp = sorted((k, 'nack', reason) for k in expect_keys)
             ctx.case(('nack', fe, reason.bit_length(), target, tuple(t for t, v in hs)))
             ctx.event('nack-delivered')
@@ -265,7 +276,15 @@ def check_pit_token(ctx, rng):
             got[tuple(bytes(x) for x in n)] = (reply, c)
         the_app.attach_handler([C(b't')], h)
         seq = 0
+        lib_logger = logging.getLogger('ndn')
+        lib_logger.addHandler(logging.NullHandler())
+        lib_logger.propagate = False
+        old_level = lib_logger.level
         for r in range(rounds):
+            # the application's log level is not an input of the property: every third round runs with the library logger at DEBUG
+            lib_logger.setLevel(logging.DEBUG if r % 3 == 2 else logging.WARNING)
+            logging.disable(logging.NOTSET if r % 3 == 2 else logging.CRITICAL)     # the runner silences logging globally
+            ctx.event('token-round-debug-logging' if r % 3 == 2 else 'token-round')
             k = rng.randint(2, 6)
             batch = []
             for j in range(k):
@@ -292,7 +311,8 @@ def check_pit_token(ctx, rng):
                 late = rng.random() < 0.2
                 if late:
                     await S.sleep_until_ms(t_arr + L + 5)
-                data = bytes(make_data(list(name), MetaInfo(), gen.rand_bytes(rng, rng.choice([0, 5, 300])), DigestSha256Signer()))
+                data = bytes(make_data(list(name), MetaInfo(), gen.rand_bytes(rng, rng.choice([0, 5, 300, 300, 1000, 1990, 2040, 4000, 8000])), DigestSha256Signer()))
+                ctx.klass('reply-size-' + ('<253' if len(data) < 253 else '<2048' if len(data) < 2048 else '>=2048'))
                 n0 = len(face.sent)
                 ret = reply(data)
                 sent = [b for t, b in face.sent[n0:]]
@@ -300,7 +320,7 @@ def check_pit_token(ctx, rng):
                 ctx.case(('token', None if token is None else len(token), late))
                 ctx.event('token-reply')
                 ctok = c.get('pit_token')
-                if (None if ctok is None else bytes(ctok)) != token:
+                if (bytes(ctok) if isinstance(ctok, (bytes, bytearray, memoryview)) else ctok) != token:
                     res['viol'].append(('context-token-differs', 'the token handed to the handler context differs from the one received', w))
                 if S.now_ms() > t_arr + L:
                     if sent:
@@ -322,6 +342,8 @@ def check_pit_token(ctx, rng):
                         res['viol'].append((f'token-reply-wrong-token:len={len(token)}', f'envelope carries token {lp["pit_token"]!r}, expected {token!r}', w))
                     if lp['fragment'] != data:
                         res['viol'].append(('token-reply-modified', 'reply bytes inside the envelope differ from what the handler sent', w))
+        lib_logger.setLevel(old_level)
+        logging.disable(logging.CRITICAL)
         the_app.shutdown()
         await asyncio.wait_for(main_task, 5)
 
@@ -336,8 +358,9 @@ def run(ctx):
         check_transparency(ctx, rng, fe)
         check_nack(ctx, rng, fe)
     check_pit_token(ctx, rng)
-    for k in ('twin-delivery-with-effect', 'nack-delivered', 'token-reply', 'fragmented-envelope'):
+    for k in ('twin-delivery-with-effect', 'nack-delivered', 'token-reply', 'fragmented-envelope', 'nack-with-cancel-in-same-turn', 'token-round-debug-logging'):
         ctx.need_event(k)
+    ctx.need_class('reply-size->=2048')
     ctx.assumptions = ['envelope headers are generated in ascending type order before the fragment',
                        'a Nack header without a reason is outside the statement (observation only, see C06)',
                        'PIT-token rules are judged on the current front-end; the legacy one documents no PIT-token support']
